@@ -15,7 +15,7 @@ LEVEL = "exploration"
 TECHNIQUE = "model-based generation of mask/unmask/reveal/save/load/CLI histories against a {plate: observed} model with a frozen row table; constructor and set_observed examples per case"
 RULE = (
     "screens of arity 1..3 with 1..8 plates whose stored values include 0, NaN and all-zero plates; histories of 3..10 operations from "
-    "{mask, unmask, reveal(ids: unobserved / already observed / repeated / unknown, in one of five reveals a long request with 10..30 unknown ids near or far (5000, 1e5, 2**33, negative) outside the id range), save+load, reveal_plate CLI, extract_screen_metadata CLI}, sometimes continued "
+    "{mask, unmask, reveal(ids: unobserved / already observed / repeated / unknown, in one of five reveals a long request with 10..30 unknown ids near or far (5000, 1e5, 2**33, negative) outside the id range), save+load, reveal_plate CLI, extract_screen_metadata CLI}, (in half the cases every save and the CLI's output go to one and the same path, over what is there), sometimes continued "
     "from an EARLIER screen object (branching), with every earlier object re-checked against its own model after each step; "
     "per case also the constructor rules (mixed plate rejected, observations without mask, neither, mask without observations) and set_observed on a drawn "
     "selection. Non-trivial = history with >=2 reveals of which one touches an already observed or unknown id. distinct = distinct case JSON."
@@ -74,6 +74,7 @@ def _case(draw):
     return {
         "screen": sc,
         "ops": ops,
+        "same_path": draw(st.booleans()),
         "set_sel": [draw(st.booleans()) for _ in range(n)],
         "set_vals": [draw(st.floats(min_value=-2, max_value=2, allow_nan=False)) for _ in range(n)],
     }
@@ -118,6 +119,15 @@ def check_case(case):
     branched = False
     touched_old = False
     paths = []
+    shared = tmp.fresh("screen_in_place.h5") if case.get("same_path") else None
+    if shared:
+        paths.append(shared)
+
+    def fresh_or_shared(name):
+        # in half the cases every save of the history goes to ONE path (the screen file is updated in place, the reveal CLI writes
+        # its output over its input), otherwise each save gets a fresh path
+        return shared or tmp.fresh(name)
+
     try:
         for step, op in enumerate(case["ops"]):
             kind = op["op"]
@@ -135,12 +145,12 @@ def check_case(case):
                 cur = unmask_screen(cur)
                 model = {p: True for p in model}
             elif kind == "saveload":
-                p = tmp.fresh("s.h5")
+                p = fresh_or_shared("s.h5")
                 paths.append(p)
                 cur.save_h5(p)
                 cur = Screen.load_h5(p)
             elif kind == "cli_meta":
-                p, o = tmp.fresh("s.h5"), tmp.fresh("meta.json")
+                p, o = fresh_or_shared("s.h5"), tmp.fresh("meta.json")
                 paths += [p, o]
                 cur.save_h5(p)
                 run_cli("extract_screen_metadata", ["--screen", p, "--output", o])
@@ -161,7 +171,8 @@ def check_case(case):
                     if kind == "reveal":
                         new = reveal_plates(cur, ids)
                     else:
-                        p, o = tmp.fresh("s.h5"), tmp.fresh("adv.h5")
+                        p = fresh_or_shared("s.h5")
+                        o = p if shared else tmp.fresh("adv.h5")
                         paths += [p, o]
                         cur.save_h5(p)
                         run_cli("reveal_plate", ["--screen", p, "--output", o, "--plate-id"] + ids)
